@@ -703,3 +703,21 @@ Definition maxpool2d (kh kw sh sw pt pl pb pr : nat) (x : tensor) : option tenso
       else None
   | _ => None
   end.
+
+(* ------------------------------------------------------------------ Clip and other cheap element-wise operators *)
+(* ONNX Clip: Min(max, Max(x, min)); an absent bound does not constrain *)
+Definition clip_val (lo hi : option Z) (v : Z) : Z :=
+  let a := match lo with Some l => Z.max v l | None => v end in
+  match hi with Some h => Z.min h a | None => a end.
+Definition clip (lo hi : option Z) (x : tensor) : tensor := unop (clip_val lo hi) x.
+
+Definition relu_val (v : Z) : Z := Z.max v 0.
+(* LeakyRelu with an integer-valued alpha: f(x) = alpha * x for x < 0, x otherwise *)
+Definition leaky_relu_val (alpha v : Z) : Z := if (v <? 0)%Z then (alpha * v)%Z else v.
+
+(* variadic Max / Min / Sum: left fold of the broadcasting binary operator *)
+Definition variadic (f : Z -> Z -> option Z) (xs : list tensor) : option tensor :=
+  match xs with
+  | [] => None
+  | x :: r => fold_left (fun acc y => match acc with Some a => binop f a y | None => None end) r (Some x)
+  end.
